@@ -28,6 +28,7 @@ class Gen:
     # ---------- routing ----------
     def matrices(self, n, profiles, unreachable):
         r = self.r
+        metric = self.metric
         pts = [(r.randint(0, 60), r.randint(0, 60)) for _ in range(n)]
         # a few duplicated coordinates -> zero legs between distinct locations
         if n > 3 and r.random() < 0.3:
@@ -48,6 +49,14 @@ class Gen:
                     dist.append(d * 10)
                     dur.append(d * speed)
                     err.append(0)
+            if metric:
+                # shortest-path closure: triangle inequality holds for durations and distances
+                for k_ in range(n):
+                    for i in range(n):
+                        for j in range(n):
+                            if dist[i * n + j] > dist[i * n + k_] + dist[k_ * n + j]:
+                                dist[i * n + j] = dist[i * n + k_] + dist[k_ * n + j]
+                dur = [x // 10 * speed for x in dist]
             m = {"profile": p, "travelTimes": dur, "distances": dist}
             if n < 3:
                 pass
@@ -89,7 +98,7 @@ class Gen:
             p["tag"] = "t%d" % r.randrange(1000)
         return p
 
-    def task(self, n, horizon, dims, with_demand, tagged, simple=False):
+    def task(self, n, horizon, dims, with_demand, tagged, simple=False, partial=False):
         r = self.r
         places = [self.place(n, horizon, tagged, simple)]
         if not simple and r.random() < 0.25:
@@ -97,6 +106,14 @@ class Gen:
             if r.random() < 0.4:
                 # same location, different duration/tag: exercises place identification
                 p2["location"] = places[0]["location"]
+            if p2["location"] == places[0]["location"]:
+                # both places then carry a tag: without tags the document under-determines which place an activity used
+                # (DESIGN, C03/C11/C12 carve-out)
+                for q in (places[0], p2):
+                    q.setdefault("tag", "t%d" % r.randrange(1000))
+            elif tagged and partial and r.random() < 0.5:
+                # partially tagged task (single-task jobs only: tasks of multi jobs need unique tags): an untagged place before / after a tagged one
+                r.choice([places[0], p2]).pop("tag", None)
             places.append(p2)
         t = {"places": places}
         if with_demand:
@@ -110,13 +127,13 @@ class Gen:
         tagged = f['tags'] and r.random() < 0.6
         j = {"id": jid}
         if kind == "delivery":
-            j["deliveries"] = [self.task(n, horizon, dims, True, tagged)]
+            j["deliveries"] = [self.task(n, horizon, dims, True, tagged, partial=True)]
         elif kind == "pickup":
-            j["pickups"] = [self.task(n, horizon, dims, True, tagged)]
+            j["pickups"] = [self.task(n, horizon, dims, True, tagged, partial=True)]
         elif kind == "service":
-            j["services"] = [self.task(n, horizon, dims, False, tagged)]
+            j["services"] = [self.task(n, horizon, dims, False, tagged, partial=True)]
         elif kind == "replacement":
-            j["replacements"] = [self.task(n, horizon, dims, True, tagged)]
+            j["replacements"] = [self.task(n, horizon, dims, True, tagged, partial=True)]
         elif kind == "pd":
             p = self.task(n, horizon, dims, True, True)
             d = self.task(n, horizon, dims, True, True)
@@ -328,6 +345,7 @@ class Gen:
                 done.add(id(x)); x["index"] = remap[x["index"]]
         walk(problem, ren)
         problem = json.loads(json.dumps(problem))  # no shared sub-objects
+        self.metric = self.forced.get('metric', r.random() < 0.7)
         self.unreach_mode = (self.forced.get('unreach_mode') or r.choice(['pairwise', 'location'])) if f['unreachable'] else None
         matrices = self.matrices(len(remap), profiles, self.unreach_mode)
         return problem, matrices, f
@@ -405,7 +423,7 @@ def make_case(seed, size='small', features=None, gens=None):
     problem, matrices, f = g.problem()
     cfg = g.config(gens)
     return {"id": "s%d" % seed, "seed": seed, "problem": problem, "matrices": matrices, "config": cfg,
-            "features": sorted(k for k, v in f.items() if v), "unreach_mode": g.unreach_mode, "travel_only": bool(f.get('travel_only'))}
+            "features": sorted(k for k, v in f.items() if v), "unreach_mode": g.unreach_mode, "travel_only": bool(f.get('travel_only')), "metric": g.metric}
 
 
 def _metric(case):
